@@ -386,7 +386,15 @@ func c13CLI(c *Ctx, n int) error {
 		}{"transient-io-fault", func(s *SchedConfig) {}}, struct {
 			name string
 			f    func(*SchedConfig)
-		}{"transient-io-fault", func(s *SchedConfig) {}})
+		}{"transient-io-fault", func(s *SchedConfig) {}}, struct {
+			name string
+			f    func(*SchedConfig)
+		}{"stalled-machine", func(s *SchedConfig) {
+			s.Bubble = true
+			if s.GoMode == "" {
+				s.GoMode = "fifo"
+			}
+		}})
 		for k, cf := range cfgs {
 			cfg := s0()
 			cfg.Seed = SubSeed(seed, cf.name, k)
@@ -438,6 +446,24 @@ func c13CLI(c *Ctx, n int) error {
 				}
 				wi.Sched.FaultErrno = r.Pick([]string{"EIO", "ENOSPC", "EACCES", "EMFILE", "EDQUOT"})
 			}
+			if cf.name == "stalled-machine" {
+				// a slow or suspended machine: the process stalls for seconds
+				// to days of simulated time just before one of its file
+				// operations (biased to the first: before the DSL is read).
+				// Timers, deadlines and contexts see the time pass. A run that
+				// then reports failure promises nothing; a run that exits 0 has
+				// "compiled" and must have produced the very same tree.
+				nops := len(o0.Rec.Ops)
+				if nops == 0 {
+					continue
+				}
+				wi.Sched.StallOp = 1 + r.Intn(nops)
+				if r.Chance(1, 3) {
+					wi.Sched.StallOp = 1
+				}
+				wi.Sched.StallSec = []int{2, 11, 61, 601, 7200, 172800}[r.Intn(6)]
+				c.ev.Fire("machine_stall_scheduled", 1)
+			}
 			if cf.name == "stdout-devfull" {
 				// the same command with a standard output on which every write fails
 				wi.StdoutKind = "devfull"
@@ -470,6 +496,13 @@ func c13CLI(c *Ctx, n int) error {
 					continue
 				}
 				c.ev.Count("transient_fault_runs_that_exited_0", 1)
+			}
+			if cf.name == "stalled-machine" {
+				if oi.Exit != 0 || o0.Exit != 0 {
+					c.ev.Count("stalled_runs_that_reported_failure", 1)
+					continue
+				}
+				c.ev.Count("stalled_runs_that_exited_0", 1)
 			}
 			if sig, non := choiceSig(oi.Rec.Choices); non {
 				c.ev.MarkDistinct(fmt.Sprintf("cli|%x|%s", seed, sig))
@@ -536,6 +569,9 @@ func (c *Ctx) candidate13CLI(caseIdx int, prog *Prog, w0, wi *CLIWorld, sname, t
 		ob, err := c.sc.RunCLI(&b)
 		if err != nil || ob.TimedOut {
 			return false, nil, nil, nil
+		}
+		if (sname == "transient-io-fault" || sname == "stalled-machine") && (oa.Exit != 0 || ob.Exit != 0) {
+			return false, oa, ob, nil // a run that reports failure promises nothing
 		}
 		ts, diffs := cliDiff(oa, ob)
 		for _, t := range ts {
